@@ -187,13 +187,20 @@ Example c09_fuel_instance :
   let cfg := mkVcfg [9; 9] 3 13 in
   let evs := [Chunk [1]; Chunk []; Chunk [2; 3]; Eof] in
   let m := MToChunkReader 1 2 1 in
-  (script_fuel evs <= script_fuel evs)%nat /\ good_param m = true /  cas_chunk_reader H cfg (script_fuel evs) evs m = mkOut [2; 3] EEof [EEof] [true] 1 [].
+  (script_fuel evs <= script_fuel evs)%nat /\ good_param m = true /\
+  cas_chunk_reader H cfg (script_fuel evs) evs m = mkOut [2; 3] EEof [EEof] [true] 1 [].
 Proof. split; [apply le_n|]. vm_compute. auto. Qed.
 Example c09_fuel_needs_good_param :
   let H := lookup [([1; 2; 3], [9; 9])] in
   let cfg := mkVcfg [9; 9] 3 13 in
   let evs := [Chunk [1]; Chunk [2; 3]; Eof] in
-  good_param (MToChunkReader 0 0 0) = false /\ good_param (MToReader [2; 0] 0) = false /  o_err (cas_chunk_reader H cfg (script_fuel evs) evs (MToChunkReader 0 0 0)) = EFuel /  o_err (cas_reader H cfg (script_fuel evs) evs true (MToChunkReader 0 0 0)) = EFuel /  o_err (cas_byte_slice H cfg (script_fuel evs) [1; 2; 3] (MToChunkReader 0 0 0)) = EFuel /  o_err (cas_chunk_reader H cfg (script_fuel evs) evs (MToReader [2; 0] 0)) = EFuel /  o_err (cas_reader H cfg (script_fuel evs) evs false (MToReader [2; 0] 0)) = EFuel /  o_err (cas_byte_slice H cfg (script_fuel evs) [1; 2; 3] (MToReader [2; 0] 0)) = EFuel.
+  good_param (MToChunkReader 0 0 0) = false /\ good_param (MToReader [2; 0] 0) = false /\
+  o_err (cas_chunk_reader H cfg (script_fuel evs) evs (MToChunkReader 0 0 0)) = EFuel /\
+  o_err (cas_reader H cfg (script_fuel evs) evs true (MToChunkReader 0 0 0)) = EFuel /\
+  o_err (cas_byte_slice H cfg (script_fuel evs) [1; 2; 3] (MToChunkReader 0 0 0)) = EFuel /\
+  o_err (cas_chunk_reader H cfg (script_fuel evs) evs (MToReader [2; 0] 0)) = EFuel /\
+  o_err (cas_reader H cfg (script_fuel evs) evs false (MToReader [2; 0] 0)) = EFuel /\
+  o_err (cas_byte_slice H cfg (script_fuel evs) [1; 2; 3] (MToReader [2; 0] 0)) = EFuel.
 Proof. vm_compute. repeat split; reflexivity. Qed.
 
 (** * The "otherwise" half at constructor level, for EVERY consumption method
